@@ -96,7 +96,8 @@ class Prop:
                            'unregister_peer, drop_stale_families, mark_llgr_stale, drop_llgr_stale_families, update_nexthop_validity, '
                            'soft_reset_in) with a capturing kernel::KernelHandle (harness/daemon/table_manager_hx.rs verif_fib_cases)')
     rule = ('a case is a history of <= 28 operations; non-trivial when some FIB request carries >= 2 next hops or a withdrawal follows an '
-            'install; distinct = distinct (configuration, canonical request stream)')
+            'install; distinct = distinct (configuration, canonical request stream); the thorough tier adds every sequence of <= 3 operations '
+            'over a 14-letter alphabet after a two-insert prefix (2954 cases) and 495 kernel reference-count sequences')
     exhaustive = {'quick': False, 'thorough': False}
     trusted_base = [
         'C20: the RIB is abstracted to what distribute_update / ecmp_paths / the NHT calls read: per path (peer, session, path id, next hop, '
@@ -171,6 +172,8 @@ class Prop:
                 nh = rng.choice([1, 2, 3, 1, 2, None]) if rng.random() < 0.9 else None
                 r = rng.random()
                 tok = rng.choice(toks_tied) if r < 0.7 else rng.choice([2, 4, 5, 6])
+                if peer == 0:
+                    sess[0] = rng.choice([0, 0, 1])       # gRPC-injected or kernel-redistributed pseudo-source
                 ops.append(('ins', peer, sess[peer], p, pid, nh, tok))
                 live.append((peer, sess[peer], p, pid))
             elif x < 0.60:
@@ -209,6 +212,18 @@ class Prop:
                 # soft reset after a policy change, the path that re-registers next hops
                 ops += [('pol', rng.choice([1, 2, 3])), ('reset', rng.choice([1, 2, 3])), ('pol', 0), ('reset', rng.choice([1, 2]))]
             cases.append(dict(cfg=mk_cfg(k % 6), shards=1 + (k % 3), ops=ops))
+        if tier == 'thorough':
+            # every sequence of <= 3 operations over a 14-letter alphabet built around one prefix
+            # with two tied paths, after a fixed two-insert prefix (exhaustive small space)
+            import itertools
+            P1 = (0, 1)
+            al = [('ins', 1, 0, P1, 0, 1, 0), ('ins', 2, 0, P1, 0, 2, 1), ('ins', 3, 0, P1, 0, 1, 5), ('ins', 2, 0, P1, 0, None, 0),
+                  ('rem', 1, 0, P1, 0), ('rem', 2, 0, P1, 0), ('nhv', 1, False), ('nhv', 1, True), ('drop', 2),
+                  ('mstale', 1), ('dstale', 1), ('mllgr', 2), ('pol', 3), ('reset', 2)]
+            for d in (1, 2, 3):
+                for seq in itertools.product(al, repeat=d):
+                    cases.append(dict(cfg=mk_cfg(0), shards=2,
+                                      ops=[('ins', 1, 0, P1, 0, 1, 0), ('ins', 3, 0, P1, 1, 3, 3)] + list(seq)))
         # request sequences for the reference counts of the kernel service task
         # (balanced, over-released and re-registered addresses; counts 0..3)
         nref = 200 if tier == 'quick' else 495
